@@ -30,6 +30,11 @@ pub trait Engine: Sync {
     fn replay(&self, trace: &Value, ctx: &mut RunCtx);
     /// Level + coverage + assumptions for the evidence file.
     fn evidence(&self, stats: &Stats, tier: Tier) -> EvidenceParts;
+    /// Checks over the merged history of the whole batch (all worker processes), e.g. "no
+    /// (project, options) pair ever produced two different digests".
+    fn history_check(&self, _stats: &Stats) -> Vec<Violation> {
+        vec![]
+    }
     /// Wall bound for one run before it is declared hung.
     fn hang_bound(&self, _tier: Tier) -> Duration {
         Duration::from_secs(300)
@@ -451,6 +456,7 @@ pub fn check_main(engine: &'static dyn Engine, args: CheckArgs) -> i32 {
         violations.extend(r.violations.iter().cloned());
         harness_errors.extend(r.harness_errors.iter().cloned());
     }
+    violations.extend(engine.history_check(&stats));
     let completed = outcome.reports.len() as u64;
     let missing = n - completed - violations.iter().filter(|v| v.class == "abort" || v.class == "hang").count() as u64;
     if missing > 0 {
@@ -538,7 +544,9 @@ pub fn check_main(engine: &'static dyn Engine, args: CheckArgs) -> i32 {
             }
             let sig = &v.signature;
             let path = write_replay(v, engine);
-            if v.class != "abort" && v.class != "hang" {
+            // Batch-level findings (abort, hang, cross-process history) are replayed by re-running
+            // the run / batch, not by an explicit trace.
+            if v.trace.get("rerun").is_none() {
                 match replay_in_fresh_process(&path) {
                     Ok(sigs) if sigs.iter().any(|s| s == sig) => {}
                     Ok(sigs) => {
